@@ -51,6 +51,39 @@ Theorem C04_header_shape_pair :
 Proof. exact header_shape_pair. Qed.
 Print Assumptions C04_header_shape_pair.
 
+(* what is signed is what the host RECEIVES, framing included: hyper's client writes a request with an empty body
+   without its transfer-encoding header ([hyper_wire]); the repaired handler (patches/fix-C04-empty-chunked-body)
+   drops that header before signing, so the forwarded request is a fixed point of [hyper_wire] and the one
+   authorization header is a MAC over the canonical string of the request as it arrives *)
+Theorem C04_signed_is_received :
+  forall (mac : bytes -> bytes -> bytes) (key : option (bytes * bytes)) (req out : request),
+  handle_signed mac key req = Forwarded out ->
+  hyper_wire out = out /\ request_sig_input out = request_sig_input (hyper_wire req).
+Proof. exact handle_signed_is_received. Qed.
+Print Assumptions C04_signed_is_received.
+
+Theorem C04_received_header_shape :
+  forall (mac : bytes -> bytes -> bytes) (guid key kb : bytes) (req out : request),
+  handle_signed mac (Some (guid, key)) req = Forwarded out ->
+  hex_decode key = Some kb ->
+  hm_get_all auth_header (r_headers (hyper_wire out)) =
+  [auth_scheme ++ [32] ++ guid ++ [32] ++ hex_encode (mac kb (request_sig_input (hyper_wire out)))].
+Proof. exact handle_signed_shape. Qed.
+Print Assumptions C04_received_header_shape.
+
+(* the defect that was repaired: signing the head as it came ([sign_and_forward_pair] without the drop) leaves a
+   request whose wire form has a DIFFERENT canonical string -- chunked framing, empty body *)
+Theorem C04_unrepaired_empty_chunked_refuted :
+  exists (req out : request),
+    sign_and_forward_pair (fun _ _ => []) (Some ([103], [48; 48])) req = Forwarded out /\
+    request_sig_input (hyper_wire out) <> request_sig_input out.
+Proof.
+  exists {| r_method := [80]; r_uri := {| u_path := [47]; u_query := None |};
+            r_headers := [(transfer_encoding_header, [99])]; r_body := [] |}.
+  eexists. split; [vm_compute; reflexivity|]. vm_compute. discriminate.
+Qed.
+Print Assumptions C04_unrepaired_empty_chunked_refuted.
+
 (* every other header is forwarded as it came *)
 Theorem C04_other_headers_untouched :
   forall (mac : bytes -> bytes -> bytes) (key_value key_guid : option bytes) (req out : request)
